@@ -41,12 +41,14 @@ PROPS = {
                         "exec": dict(fields=XLAYOUT, oracles=["no_overlap", "inside", "borrow_panic", "par_eq_seq(world)", "par_eq_seq(states)",
                                                               "once", "preds_done", "unexpected_panic"], kf1=True)}),
     "C06": dict(sd=True, suites={"sysdata": dict(fields=["reads", "writes", "fetch", "alive", "after", "setup", "setupok", "driver-exception"],
-                                                 oracles=["declared_equals_borrowed", "released_after_drop", "setup_keeps_existing",
+                                                 oracles=["declared_equals_borrowed", "conflicting_members_fetched", "released_after_drop", "setup_keeps_existing",
                                                           "setup_default_value", "setup_idempotent"])}),
     "C08": dict(suites={"world": dict(fields=["outcome", "probe", "ledger", "end", "driver-exception"],
-                                      oracles=["fail_preserves", "none_iff_absent", "borrow_class"])}),
+                                      oracles=["fail_preserves", "none_iff_absent", "borrow_class"]),
+                        "meta": dict(fields=["outcome", "driver-exception"], oracles=["iter_borrow_discipline"])}),
     "C09": dict(suites={"world": dict(fields=["outcome", "probe", "ledger", "end", "driver-exception"],
-                                      oracles=["mismatch_panics", "drop_once", "fail_preserves"])}),
+                                      oracles=["mismatch_panics", "drop_once", "fail_preserves", "other_slots_untouched", "insert_replaces",
+                                               "remove_empties", "entry_never_overwrites", "entry_inserts"])}),
     "C10": dict(suites={"plan": dict(fields=LAYOUT + ["maxthr"], oracles=["skip_justified", "max_threads"])}),
     "C11": dict(suites={"pool": dict(fields=["pool-model", "builderr", "driver-exception"], oracles=["stage_serialised"])}),
     "C12": dict(suites={"plan": dict(fields=["tl", "tlorder", "sendable", "driver-exception"], oracles=["tl_order", "sendable", "sendable_preserves_plan"]),
@@ -68,7 +70,7 @@ PROPS = {
                                        oracles=["conflict_accepted", "compatible_rejected", "setup_reaches_every_leaf", "unexpected_panic",
                                                 "once", "seq_order", "run_counts"])}),
     "C17": dict(suites={"meta": dict(fields=["outcome", "driver-exception"],
-                                     oracles=["get_iff_registered", "own_vtable", "same_address", "bad_cast_only",
+                                     oracles=["get_iff_registered", "own_vtable", "same_address", "bad_cast_only", "iter_borrow_discipline",
                                               "iter_registered_present_in_first_registration_order", "iter_own_vtable"])}),
     "C18": dict(suites={"plan": dict(fields=["calls", "err", "driver-exception"], oracles=["errors_exact", "status:setup-panic", "status:run-panic"],
                                      gens=["malformed"])}),
